@@ -95,9 +95,20 @@ Definition map_dimensions_to_source {A} (tbl : list (nat * nat)) (idx : list A) 
 (* map_shape_to_requested: from_fn(|d| source[requested_to_source[d]]) *)
 Definition map_shape_to_requested (tbl : list (nat * nat)) (src : shape) : shape :=
   map (fun p => nth p src (0%nat, 0)) (dm_r2s tbl).
-(* map_linear_data_layout_to_transposed: from_fn(|d| order[source_to_requested[d]]) *)
+(* map_linear_data_layout_to_transposed as it was BEFORE fix 6660492 (kept because
+   Model/Views.v carries a refutation witness about it): from_fn(|d| order[source_to_requested[d]]) *)
 Definition map_linear_data_layout_to_transposed (tbl : list (nat * nat)) (order : list name)
   : list name := map (fun p => nth p order 0%nat) (dm_s2r tbl).
+
+(* map_linear_data_layout_to_transposed(source, order) as it is now: each name of the source's
+   memory order is looked up in the source shape (position p) and renamed to the name at position
+   source_to_requested[p]; a name that is not in the shape is kept *)
+Definition map_linear_data_layout_to_transposed_fixed (tbl : list (nat * nat)) (source : shape)
+           (order : list name) : list name :=
+  map (fun n => match index_of n (names_of source) with
+                | Some p => fst (nth (nth p (dm_s2r tbl) 0%nat) source (0%nat, 0))
+                | None => n
+                end) order.
 
 (* ---- encoders ---- *)
 Definition sshape (sh : shape) : sx := slist (spair snat sN) sh.
